@@ -607,6 +607,11 @@ class Gen:
             if kind in ("mmax", "mmin") and n1 * n2 == 0:
                 kind = "msum"
             a = self.gen_m(n1, n2, depth)
+            if kind == "trace":
+                try:
+                    self.K("diag", a.cls)
+                except Unsupported:
+                    kind = "msum"
             text = f"{kind} {a.txt}"
             cpp = {"msum": f"sum({a.cpp})", "mmax": f"max({a.cpp})", "mmin": f"min({a.cpp})", "trace": f"trace({a.cpp})",
                    "mnorm_sqr": f"norm_sqr({a.cpp})"}[kind]
